@@ -1330,8 +1330,13 @@ def probe_defer(existing_state, cyclic, known_trigger=False):
     def set_state(self, state, state_info, processed=None, first_run=False):
         effects.append('rearm' if state == 'WAITING' else 'set:%s' % state)
         return True
+    class FakeQueue(object):
+        @staticmethod
+        def register_operation(func, args=None, in_tx=False):
+            pass        # e.g. a workflow completion check: does not touch the join execution
     trig = [{'task_id': 'ta' if known_trigger else 'tb', 'event': 'on-success'}]
-    with mock.patch.object(tasks_mod, 'db_api', FakeDb()), mock.patch.object(tasks_mod.Task, 'set_state', set_state):
+    with mock.patch.object(tasks_mod, 'db_api', FakeDb()), mock.patch.object(tasks_mod.Task, 'set_state', set_state), \
+            mock.patch.object(tasks_mod, 'post_tx_queue', FakeQueue):
         t = tasks_mod.RegularTask(WfEx(), wf_spec, wf_spec.get_tasks()['j'], {}, task_ex=None, unique_key=KEY,
                                   waiting=True, triggered_by=trig)
         t.defer()
@@ -1461,7 +1466,7 @@ def suite_proto(ctx):
             sched = [rng.randrange(n + (1 if rng.random() < 0.1 else 0)) for _ in range(L)]
         store = TxStore(fresh, unique)
         if which == 'defer':
-            with mock.patch.object(tasks_mod, 'db_api', fake_db):
+            with mock.patch.object(tasks_mod, 'db_api', fake_db), mock.patch.object(tasks_mod, 'post_tx_queue', mock.Mock()):
                 codes, errors = run_schedule(store, [defer_body] * n, sched)
             count = sum(1 for r in store.committed.values() if r.get('unique_key') == KEY)
             cfg = '(mkCfg defer_locked defer_recheck %s %s)' % (core.coq_bool(fresh), core.coq_bool(unique))
@@ -1633,6 +1638,15 @@ def oracle_engine_view(ctx, spec, v, rep, acyclic, seen):
                          % (j, len(ins) - dead, k), dict(rep, join=j, rows=rows))
 
 
+# partial join fed by three branches: under some completion orders a branch arrives after the join completed
+DISCRIMINATOR = {'order': ['t0', 't1', 't2', 't3'], 'defaults': None, 'tasks': {
+    't0': _t(on_success=['t3']), 't1': _t(on_success=['t3']), 't2': _t(on_success=['t3']), 't3': _t(join='one')}}
+TWO_OF_THREE = {'order': ['t0', 't1', 't2', 't3', 't4'], 'defaults': None, 'tasks': {
+    't0': _t(on_success=['t3']), 't1': _t(on_complete=['t3']), 't2': _t(on_error=['t3'], on_success=['t4']),
+    't3': _t(join=2), 't4': _t()}}
+CORPUS_ENGINE = [(DISCRIMINATOR, {}, [3, 5, 8, 1]), (TWO_OF_THREE, {'t2': 'err'}, [3, 8, 0])]
+
+
 def suite_engine_oracle(ctx):
     import random as _random
     from harness import engine_driver as ed
@@ -1642,14 +1656,20 @@ def suite_engine_oracle(ctx):
     dist = ctx.cov['suites'].setdefault('engine', {'evaluations': 0, 'distinct_nontrivial': 0})
     finals = dist.setdefault('final_wf_states', {})
     jstates = dist.setdefault('final_join_states', {})
+    plan = []
+    for ci, (cspec, couts, cseeds) in enumerate(CORPUS_ENGINE):
+        for sd in cseeds:
+            plan.append((cspec, dict({nm: 'ok' for nm in cspec['order']}, **couts), sd, 'corpus%d' % ci))
     for si in range(n_specs):
         spec = gen_engine_spec(rng)
-        acyclic = is_acyclic(spec)
-        name = 'wfc04_%d' % si
-        text = engine_yaml(spec, name)
         for rep_i in range(ctx.n(1, 2)):
-            sseed = rng.randrange(1 << 30)
-            outcomes = {nm: rng.choice(['ok', 'ok', 'ok', 'ok', 'ok', 'err']) for nm in spec['order']}
+            plan.append((spec, {nm: rng.choice(['ok', 'ok', 'ok', 'ok', 'ok', 'err']) for nm in spec['order']},
+                         rng.randrange(1 << 30), 'g%d' % si))
+    for spec, outcomes, sseed, label in plan:
+        acyclic = is_acyclic(spec)
+        name = 'wfc04_%s' % label
+        text = engine_yaml(spec, name)
+        for _once in (0,):
             d.reset(sseed)
             try:
                 d.create_workflows(text)
@@ -1811,7 +1831,7 @@ def replay_proto(ctx, r):
     store = TxStore(r['fresh'], r['unique'])
     if r['which'] == 'defer':
         tasks_mod, fake_db, body, KEY = defer_harness()
-        with mock.patch.object(tasks_mod, 'db_api', fake_db):
+        with mock.patch.object(tasks_mod, 'db_api', fake_db), mock.patch.object(tasks_mod, 'post_tx_queue', mock.Mock()):
             codes, errors = run_schedule(store, [body] * r['n'], r['sched'])
         count = sum(1 for x in store.committed.values() if x.get('unique_key') == KEY)
     else:
